@@ -20,7 +20,7 @@ FUNCTIONS = ["ak.color._ColorConfColorDescr.__init__", "ak.color._ColorConfColor
              "ak.color.Palette._prepare_local_colors", "ak.color.Palette._sync_with_config", "ak.color.set_global_colors_config", "ak.color._PaletteMeta.__call__"]
 BOUNDS = {
     "quick": {"ids": "3 ids (one dotted / nested-dict form) + references to a built-in id and to a never-registered id; chains up to length 3, acyclic",
-              "descriptions": "middle id: parent from 5 choices x foreground from {absent, '-', name, 196, 0, g5, (1,2,3)} x modifiers from 3 sets, background from 3 forms in a second shard; "
+              "descriptions": "middle id: parent from 5 choices x foreground from {absent, '-', name, 255, 0, g5, (1,2,3)} x modifiers from 3 sets, background from 3 forms in a second shard; "
                               "the two other ids from 6 representative descriptions each",
               "registration": "8 splits: all explicit; one component; each id in its own component in all 6 orders; + one id defined both explicitly and by a later component; no_color twin"},
 }
@@ -30,7 +30,7 @@ STUBS = []
 ASSUMPTIONS = ["formatters are compared through the text they emit for a sample string (the numeric colour mapping itself is C09's subject)"]
 
 IDS = ["XA", "XG.B.C", "XC"]          # the dotted id is written as three nested dictionaries
-FG = ["", "-", "RED", "196", "g5", "( 1,2, 3)", "0"]
+FG = ["", "-", "RED", "255", "g5", "( 1,2, 3)", "0"]
 BG = ["", "-", "BLUE", "g5", "0"]
 MODS = [[], ["bold"], ["no_bold", "crossed"], ["bold", "crossed"], ["no_crossed", "underline"]]
 PARENTS = ["none", "WARN", "XUNK", "prev", "next"]
